@@ -889,7 +889,7 @@ int cp_rsa_ver(uint8_t *sig, size_t sig_len, const uint8_t *msg, size_t msg_len,
 		return 0;
 	}
 
-	if (pub == NULL || msg_len < 0) {
+	if (pub == NULL || msg_len < 0 || sig_len != bn_size_bin(pub->crt->n)) {
 		return 0;
 	}
 
@@ -920,6 +920,10 @@ int cp_rsa_ver(uint8_t *sig, size_t sig_len, const uint8_t *msg, size_t msg_len,
 		bn_new(eb);
 
 		bn_read_bin(eb, sig, sig_len);
+
+		if (bn_cmp(eb, pub->crt->n) != RLC_LT) {
+			RLC_THROW(ERR_NO_VALID);
+		}
 
 		bn_mxp(eb, eb, pub->e, pub->crt->n);
 
